@@ -52,6 +52,30 @@ Theorem C05_type1_broadcast : forall (f1 id f2 : bytes) (key : N) (f3 name ip ma
 Proof. exact type1_roundtrip. Qed.
 Print Assumptions C05_type1_broadcast.
 
+(* the same for an arbitrary state byte: the device is ON iff the byte is 01, and a device that is not ON may carry anything
+   (any 32-bit number) in its countdown field: power, current and remaining time are reported as zero *)
+Theorem C05_type1_any_state_byte : forall (f1 id f2 : bytes) (key : N) (f3 name ip mac f5 : bytes) (stb : N) (f6 : bytes) (power : N)
+    (f7a f7b : bytes) (remaining : N) (f8 : bytes) (auto : N) (f9 : bytes) (tname tvalue thex : string) (proto : N) (cat : string),
+  In (tname, tvalue, thex, proto, cat) device_types ->
+  length f1 = 16%nat -> length id = 3%nat -> length f2 = 19%nat -> length f3 = 1%nat -> length ip = 4%nat -> length mac = 6%nat ->
+  length f5 = 47%nat -> length f6 = 1%nat -> length f7a = 2%nat -> length f7b = 8%nat -> length f8 = 4%nat -> length f9 = 6%nat ->
+  (length name <= 32)%nat -> utf8_valid name = true -> last name 1 <> 0 ->
+  stb < 256 -> power < 65536 -> ((stb =? 1) = true -> remaining < 86400) -> auto < 86400 ->
+  wf_bytes (concat (type1_segs f1 id f2 key f3 (pad0 32 name) (unhex_str thex) ip mac f5 stb f6 power
+                      (f7a ++ f7b) remaining f8 auto f9)) ->
+  cat = "WATER_HEATER"%string \/ cat = "POWER_PLUG"%string ->
+  let on := stb =? 1 in
+  parse_datagram false false
+    (concat (type1_segs f1 id f2 key f3 (pad0 32 name) (unhex_str thex) ip mac f5 stb f6 power
+               (f7a ++ f7b) remaining f8 auto f9)) =
+  Delivered
+    (if String.eqb cat "WATER_HEATER"
+     then DWaterHeater tname on (hexlify id) (hexlify [key]) (dotted ip) (mac_of mac) name (if on then power else 0)
+            (if on then fmt_hhmmss remaining else s2l "00:00:00") (fmt_hhmmss auto)
+     else DPowerPlug tname on (hexlify id) (hexlify [key]) (dotted ip) (mac_of mac) name (if on then power else 0)).
+Proof. exact type1_roundtrip_any. Qed.
+Print Assumptions C05_type1_any_state_byte.
+
 (* Runner and Runner Mini (159 bytes): MAC at bytes 81-86, position at 135 with byte 136 zero, direction at 137-138 *)
 Theorem C05_runner_broadcast : forall (f1 id f2 : bytes) (key : N) (f3 name f4 ip mac f5 : bytes) (position : N) (f6 : bytes)
     (tname tvalue thex : string) (proto : N) (dname dvalue ddisp : string),
